@@ -2,7 +2,10 @@
    peer. Property theorems only; the model is Model/Proxy.v (goat.Proxy as the
    code is now), the proofs are in Proofs/ProxyProofs.v. Every theorem
    quantifies over every configuration [cf] (proxy name, buffer size, any
-   interceptor function) and all label sequences of the LTS: any number of
+   interceptor that is a function (source, destination) -> rewritten
+   destination | rejection: the real interceptor gets the header and could
+   also change other fields; such interceptors are outside the model and the
+   rig's family) and all label sequences of the LTS: any number of
    peers, envelopes, faults, any interleaving of the goroutines. *)
 From Coq Require Import List ZArith Bool.
 Import ListNotations.
@@ -107,6 +110,19 @@ Theorem C16_no_loss_outstanding : forall cf ls s, lrun cf init ls = Some s -> fo
 Proof. exact C16_no_loss_outstanding_l. Qed.
 Print Assumptions C16_no_loss_outstanding.
 
+(* (Q) delivery - "hands every envelope it accepts ... to the peer": in EVERY quiescent state, a record whose write loop
+   is alive and idle (in its select: not inside a blocked Write, not failed, not ended) has an empty buffer and
+   nothing in flight: everything ever enqueued for it has been handed to its connection (in order, once:
+   C16_accounting), and if nothing was dropped for it (below the buffer: C16_no_loss_outstanding) that is everything
+   accepted and routed to it *)
+Theorem C16_delivered_Q : forall cf ls s, lrun cf init ls = Some s -> quiescent cf s = true ->
+  forall i ci, nth_error (clients s) i = Some ci -> p_wr ci = WRSel ->
+  buf_of s i = [] /\ wr_pend s i = [] /\ wfails i (log s) = [] /\
+  outs i (log s) = enqs i (log s) /\
+  (dropped i (log s) = [] -> outs i (log s) = fwds i (log s)).
+Proof. exact C16_delivered_Q_l. Qed.
+Print Assumptions C16_delivered_Q.
+
 (* the proxy as a wire: when nothing was ever dropped for destination record i (which the two theorems above
    guarantee below the buffer), then for EVERY source record j: the enqueued sequence of i (each envelope tagged
    with the record it came from) is what i's connection was handed ++ at most one failed write ++ the one being
@@ -169,7 +185,8 @@ Example C16_ex : exists s, lrun cf0 init ex16 = Some s /\
   outs 2 (log s) = [mkEnv true 1 3 [99] None 72] /\ dials (log s) = [(2%nat, 3)] /\
   dropped 1 (log s) = [] /\ quiescent cf0 s = true /\
   pairs 0 1 (log s) = [(m 1 2 70, mkEnv true 1 2 [99] None 70); (m 1 2 71, mkEnv true 1 2 [99] None 71)] /\
-  routed 0 1 (log s) = pairs 0 1 (log s) /\ enqs_from 2 (log s) = [(0%nat, mkEnv true 1 3 [99] None 72)].
+  routed 0 1 (log s) = pairs 0 1 (log s) /\ enqs_from 2 (log s) = [(0%nat, mkEnv true 1 3 [99] None 72)] /\
+  option_map p_wr (nth_error (clients s) 1) = Some WRSel /\ outs 1 (log s) = fwds 1 (log s).
 Proof. eexists. split. vm_compute. reflexivity. vm_compute. repeat split; reflexivity. Qed.
 
 (* the known limit (finding proxy-overflow>buf): with the destination's write loop stalled, the envelope that
